@@ -137,6 +137,10 @@ struct World
 	{
 		if (!conn) return;
 		ses->stop();
+		// Session::stop() returns at once when a stop is already in progress on one of the session's own threads (the timer
+		// thread aborting after an ignored test request); that thread still uses the connection, so let it get to its sleep
+		// before the connection object goes away (an application deleting it earlier crashes fix8: observation, DESIGN section 12)
+		sim::settle();
 		collect();
 		if (ses) { for (auto& s : ses->states) all_states.push_back(s); ses->states.clear(); }
 		delete conn; conn = nullptr;
